@@ -77,8 +77,13 @@ class FalsyEvent(dict):
 
 class SubCase(object):
     def __init__(self, rng, key):
-        self.ir = S.generate(rng, features={"subscription": True}, size=rng.choice([1, 2, 3]))
-        self.world = World(self.ir, key, p_error=0.15, p_null_in_nonnull=0.05,
+        # a third of the schemas use one object type for several operations
+        self.ir = S.generate(rng, features={"subscription": True, "shared_roots": rng.random() < 0.33},
+                             size=rng.choice([1, 2, 3]))
+        # a fifth of the worlds also raise unexpected exceptions: the event they hit is lost, the
+        # following events must not inherit anything from it
+        self.crashes = random.Random("crash:%s" % key).random() < 0.2
+        self.world = World(self.ir, key, p_error=0.15, p_null_in_nonnull=0.05, p_crash=0.04 if self.crashes else 0.0,
                            served={self.ir.subscription: "resolver"})
         self.binding = Binding(self.world)
         self.source = None
@@ -115,11 +120,21 @@ class SubCase(object):
 
 
 async def consume(stream, limit=100):
+    """`async for`, except that an unexpected resolver exception raised for one event is recorded and
+    the consumer keeps reading (streams with injected crashes only)."""
+    from ..gen.world import Crash
+
     out = []
-    async for r in stream:
-        out.append(r)
-        if len(out) > limit:
+    it = stream.__aiter__()
+    while len(out) <= limit:
+        try:
+            r = await it.__anext__()
+        except StopAsyncIteration:
             break
+        except Crash as e:
+            out.append(("crash", e))
+        else:
+            out.append(r)
     return out
 
 
@@ -192,14 +207,22 @@ def run(ctx):
                            "falsy_events": falsy, "initial_value": initial is not None}
                 refs = [refexec.reference_result(case.ir, doc, op, variables, case.world, root=e) for e in events]
                 probe = refexec.reference_result(case.ir, doc, op, variables, case.world, root=Obj(case.ir.subscription, "probe"))
-                if probe[0] != "ok" or any(r[0] != "ok" for r in refs):
+                if probe[0] not in ("ok", "crash") or any(r[0] not in ("ok", "crash") for r in refs):
                     ctx.abstain("reference:" + (probe[0] if probe[0] != "ok" else "event"))
                     continue
+                if probe[0] == "crash":
+                    probe = ("ok", None, [], None)
+                crashed_events = [k for k, r in enumerate(refs) if r[0] == "crash"]
+                if crashed_events:
+                    # deterministic only when nothing is in flight when the exception escapes
+                    in_thread = False
+                    witness["in_thread"] = False
+                    ctx.count("streams_with_crashing_events")
                 rt = AsyncIORuntime(loop=loop, execute_blocking_functions_in_thread=in_thread)
                 ctx.evaluated()
                 ctx.count("streams")
                 ctx.count("events_in_sources", n_events)
-                if n_events >= 2 or any(r[2] for r in refs):
+                if n_events >= 2 or any(r[0] == "ok" and r[2] for r in refs):
                     ctx.mark_nontrivial([case.sdl, text, variables, n_events, source.as_class])
 
                 async def go():
@@ -233,7 +256,16 @@ def run(ctx):
                                   "consumed=%d finished=%r" % (source.consumed, source.finished))
                 for k, (res, ref) in enumerate(zip(results, refs)):
                     ctx.count("event_results_checked")
-                    w = dict(witness, event_index=k)
+                    w = dict(witness, event_index=k, crashed_events=crashed_events)
+                    if ref[0] == "crash" or isinstance(res, tuple):
+                        if ref[0] == "crash" and isinstance(res, tuple):
+                            ctx.count("events_lost_to_unexpected_exception")
+                        elif ref[0] == "crash":
+                            ctx.observe("unexpected exception did not escape from the stream")
+                        else:
+                            ctx.violation("event:raises:%s" % type(res[1]).__name__, w, repr(res[1])[:200])
+                            break
+                        continue
                     if not isinstance(res.data, dict):
                         ctx.violation("event:data-missing", w, repr(res.data)[:100])
                         break
@@ -258,7 +290,7 @@ def run(ctx):
                     if ref[2]:
                         ctx.count("events_with_errors")
                 ctx.sample("stream", {"document": text[:300], "events": n_events,
-                                      "error_counts": [len(r[2]) for r in refs]})
+                                      "error_counts": [len(r[2]) if r[0] == "ok" else "crash" for r in refs]})
 
             # refusal classes
             field = usable[0] if usable else None
@@ -285,6 +317,8 @@ def run(ctx):
             ])
             refusals = [("several-root-fields", several, AsyncIORuntime(loop=loop), ExecutionError),
                         ("non-subscription-operation", "{ __typename }", AsyncIORuntime(loop=loop), RuntimeError),
+                        # the same selection as a query: refused whatever the root types are (they may be shared)
+                        ("non-subscription-operation", "query { %s }" % sel(field), AsyncIORuntime(loop=loop), RuntimeError),
                         ("runtime-without-streams", "subscription { %s }" % sel(field), BlockingRuntime(), RuntimeError)]
             if case.no_sub_resolver:
                 nf = [f for f in sub_type.fields if f.name in case.no_sub_resolver][0]
